@@ -466,7 +466,11 @@ func (r *transport) handleStaleWhileRevalidate(
 	noCacheQualified bool,
 	noCacheFieldsSeq iter.Seq[string],
 ) (*http.Response, error) {
-	req2 := req.Clone(req.Context())
+	// The background request outlives the caller's exchange: it keeps the values
+	// of the caller's context but not its cancellation (http.Client cancels the
+	// request context as soon as the response body is closed), and ends when
+	// the origin answers or the timeout elapses.
+	req2 := req.Clone(context.WithoutCancel(req.Context()))
 	// Background revalidation is "best effort"; it is not guaranteed to complete
 	// if the program exits before the goroutine finishes. This design choice was
 	// made to keep the API simple and avoid requiring explicit shutdown coordination.
